@@ -6,6 +6,8 @@ package main
 import (
 	"fmt"
 	"os"
+
+	_ "modernc.org/sqlite"
 )
 
 func main() {
@@ -37,6 +39,12 @@ func main() {
 		err = cmdLimits(os.Args[2:])
 	case "fidelity":
 		err = cmdFidelity(os.Args[2:])
+	case "pullops":
+		err = cmdPullOps(os.Args[2:])
+	case "crash":
+		err = cmdCrash(os.Args[2:])
+	case "crash-child":
+		err = cmdCrashChild(os.Args[2:])
 	case "cfgfmt":
 		err = cmdCfgFmt(os.Args[2:])
 	case "publish":
